@@ -21,6 +21,7 @@ CASE_TIMEOUT = 400
 BATCH_SIZE = {'quick': 1, 'thorough': 1}
 REQUIRED_COUNTERS = ['iterations_checked', 'get_batch_checked',
                      'files_with_unsorted_minor_indices',
+                     'iterations_interleaved_with_random_access',
                      'csc_conversions', 'csc_multi_pass_conversions',
                      'encoding_triples_mapping', 'encoding_triples_stats']
 RULE = ('case block = matrices x {dense, CSR, CSC} x {X, layer} x dtype x '
@@ -217,6 +218,33 @@ def check_iterator(ctx, M, enc, layer, dtype, work, rng, chunk_sizes,
             if full.dtype != M.dtype:
                 ctx.V(f'C05:{tag}:dtype',
                       f'yielded {full.dtype}, stored {M.dtype}; {what}')
+            # random access in the middle of an iteration must not disturb
+            # it: iterate a fresh iterator, peeking at other rows with
+            # get_chunk / get_batch / [] after every chunk it yields
+            it2 = AnnDataRowIterator(
+                h5ad_path=path, row_chunk_size=chunk,
+                layer='X' if layer is None else layer,
+                tmp_dir=str(scratch), max_gb=max_gb)
+            want_r0 = 0
+            ok_inter = True
+            for (blk, r0, r1) in it2:
+                if r0 != want_r0 or not np.array_equal(np.asarray(blk),
+                                                       M[r0:r1]):
+                    ok_inter = False
+                    break
+                want_r0 = r1
+                a = int(rng.integers(0, n_rows))
+                b = int(rng.integers(a + 1, n_rows + 1))
+                it2.get_chunk(a, b)
+                it2.get_batch([int(rng.integers(n_rows))], sparse=False)
+                it2[int(rng.integers(n_rows))]
+            ctx.bump('iterations_interleaved_with_random_access')
+            if not ok_inter or want_r0 != n_rows:
+                ctx.V(f'C05:{tag}:iteration-disturbed-by-random-access',
+                      f'after random access the iteration continued at row '
+                      f'{r0 if not ok_inter else want_r0} instead of '
+                      f'{want_r0 if not ok_inter else n_rows}; {what}')
+            del it2
             # get_chunk on random ranges
             for _ in range(3):
                 a = int(rng.integers(0, n_rows))
